@@ -435,9 +435,55 @@ def s_aggmix(tier, rng, evs=('f64', 'i64', 'decimal', 'number')):
                         out.append(case(ev, 'eval', None, f + '(' + ','.join(args) + ')'))
     return out
 
+def s_maxlen(tier, rng, evs=EVS, mode='eval'):
+    """inputs of exactly 253..257 characters in every shape that buys nesting or length per character: prefix signs, brackets,
+       juxtaposed brackets, function calls, floor brackets, postfix runs, flat and right-nested chains, long literals,
+       long argument lists -- each over every one-character operand; 257 must be rejected, 256 must not"""
+    out = []
+    for ev in evs:
+        ops1 = ['1', '@'] + (['e', 'π'] if ev != 'i64' else []) + (['i'] if ev == 'complex' else [])
+        f = gen.F1[ev][0]
+        for L in (253, 254, 255, 256, 257):
+            shapes = []
+            for o in ops1:
+                for sg in ('-', '+', '-+'):
+                    k = L - 1
+                    shapes.append((sg * k)[:k] + o)
+                k = (L - 1) // 2
+                shapes.append('+' * (L - 1 - 2 * k) + '(' * k + o + ')' * k)
+                shapes.append('-' * (L - 1 - 2 * k) + '(' * k + o + ')' * k)
+                k = (L - 1) // 3
+                shapes.append('+' * (L - 1 - 3 * k) + '2(' * k + o + ')' * k)
+                k = (L - 1) // (len(f) + 2)
+                shapes.append('+' * (L - 1 - (len(f) + 2) * k) + (f + '(') * k + o + ')' * k)
+                shapes.append(o + '+1' * ((L - 1) // 2) + ('' if (L - 1) % 2 == 0 else ' '))
+                k = (L - 1) // 2
+                shapes.append('-' * (L - 1 - 2 * k) + o + '^1' * k)
+                shapes.append('-' * (L - 1 - 2 * k) + o + '*1' * k)
+                shapes.append(o + '²' * (L - 1))
+                if gen.HAS_BANG[ev]:
+                    shapes.append(o + '!' * (L - 1))
+                    shapes.append('-' * (L - 2) + o + '!')
+                if gen.HAS_FLOORBR[ev]:
+                    k = (L - 1) // 2
+                    shapes.append('+' * (L - 1 - 2 * k) + '⌊' * k + o + '⌋' * k)
+                if gen.FV[ev]:
+                    g = gen.FV[ev][0]
+                    k = (L - len(g) - 3) // 2
+                    shapes.append(g + '(' + o + ',1' * k + ')' + ('' if (L - len(g) - 3) % 2 == 0 else '²'))
+            shapes.append('1' * L)
+            shapes.append('0' * (L - 1) + '1')
+            shapes.append('1.' + '0' * (L - 3) + '1')
+            shapes.append('2' + ''.join(gen.SUP[0] for _ in range(L - 2)) + gen.SUP[2])
+            for e in shapes:
+                e2 = e.replace(' ', '')
+                if len(e2) == L or len(e2) == L - 1:
+                    out.append(case(ev, mode, gen.ph_pool(ev)[3], e2))
+    return out
+
 def run_C01(tier, rng, stats):
     cs = (s_oppool(tier, rng) + s_pairs2(tier, rng) + s_longpad(tier, rng) + s_tokseq(tier, rng) + s_tokseq_full(tier, rng) + s_chars(tier, rng) + s_wf(tier, rng, nq=250, nt=2500) +
-          s_mut(tier, rng, nq=250, nt=2500) + s_badlits(tier, rng) + s_aggfail(tier, rng) + s_aggmix(tier, rng) + s_longlits(tier, rng) + s_loops(tier, rng))
+          s_mut(tier, rng, nq=250, nt=2500) + s_badlits(tier, rng) + s_aggfail(tier, rng) + s_aggmix(tier, rng) + s_longlits(tier, rng) + s_maxlen(tier, rng) + s_loops(tier, rng))
     stats['rule'] = ('all token sequences <= %d (small alphabet) and <= %d (full alphabet), all strings <= %d chars over a lexer alphabet, '
                      'grammar-directed random expressions x placeholder pool, near-miss mutants, malformed literals, aggregates around failing '
                      'arguments, looping constructs over extreme operands; all five evaluators, debug and release; non-trivial = model outcome is not a lex/parse error'
@@ -517,7 +563,7 @@ def s_nested(tier, rng, evs=EVS):
     return out
 
 def run_C02(tier, rng, stats):
-    cs = s_loops(tier, rng) + s_nested(tier, rng) + s_wf(tier, rng, nq=200, nt=2000) + s_tokseq(tier, rng, qlen=3, tlen=3)
+    cs = s_loops(tier, rng) + s_nested(tier, rng) + s_maxlen(tier, rng) + s_wf(tier, rng, nq=200, nt=2000) + s_tokseq(tier, rng, qlen=3, tlen=3)
     stats['rule'] = ('every looping construct (!, w, ilog, gcd, lcm) over extreme / non-finite / zero / negative / base-1 operands and placeholders, '
                      'every construct nested in each operand position at depths up to the 256-character bound, inputs near 256 chars, random expressions; ticks measured by the cfg-guarded counter, 4 s wall-clock watchdog per case')
     cases, outs, model = run_streams(cs, stats, profiles=('debug',), budget=10**7)
@@ -555,7 +601,7 @@ def run_C02(tier, rng, stats):
 def run_C03(tier, rng, stats):
     cs = (s_tokseq(tier, rng, qlen=4, tlen=5) + s_tokseq_full(tier, rng) + s_chars(tier, rng) + s_nearmiss_chars(tier, rng) + s_keywords(tier, rng) +
           s_wf(tier, rng, nq=300, nt=3000) + s_mut(tier, rng, nq=400, nt=4000) +
-          s_tokseq(tier, rng, mode='ast', qlen=3, tlen=4) + s_chars(tier, rng, mode='tokens') + s_longlits(tier, rng, mode='tokens') + s_longlits(tier, rng))
+          s_tokseq(tier, rng, mode='ast', qlen=3, tlen=4) + s_chars(tier, rng, mode='tokens') + s_longlits(tier, rng, mode='tokens') + s_longlits(tier, rng) + s_maxlen(tier, rng))
     stats['rule'] = ('all token sequences <= %d over a representative alphabet incl. a foreign character and a foreign keyword, all strings <= 3/4 chars, '
                      'every keyword of the union vocabulary in every evaluator (alone, followed by each character class, near misses, wrong arity), '
                      'random well-formed expressions and near-miss mutants; outcomes, token streams and ASTs compared' % (4 if tier == 'quick' else 5))
@@ -851,14 +897,78 @@ def violation_search(pid, tier, rng, stats, disagreements, rep):
         vlib.log('spec runner build failed: ' + str(e)[-300:])
         return found
     if SPEC_RUNNER[0] is None:
-        return found
+        # the tables are the committed ones: the regular run already was the comparison with the specification side
+        return focused_search(pid, rng, stats, rep)
     old = vlib.run_model
     vlib.run_model = lambda lines, runner=None: old(lines, runner=SPEC_RUNNER[0])
     try:
         res = run_property(pid, 'quick' if tier == 'quick' else 'thorough', rng, {})
         found = res['violations']
+        found += focused_search(pid, rng, stats, rep)
     finally:
         vlib.run_model = old
+    return found
+
+FOCUS_EVS = {'C05': ['f64'], 'C06': ['i64'], 'C07': ['decimal'], 'C08': ['complex'], 'C09': ['number'], 'C18': [], 'C17': [], 'C03': [], 'C04': [], 'C19': []}
+_ARITH = ['Add', 'Subtract', 'Multiply', 'Divide', 'Modulo', 'Negative', 'Number', 'Num']
+FOCUS_ARMS = {'C05': _ARITH + ['Pow', 'Abs', 'Floor', 'Ceil', 'Truncate', 'Round', 'Sqrt'], 'C07': _ARITH,
+              'C09': _ARITH + ['Pow', 'Abs', 'Floor', 'Ceil', 'Truncate', 'Round', 'Sqrt', 'Sign', 'Factorial'],
+              'C11': ['Min', 'Max', 'Avg', 'Med', 'Gcd', 'Lcm'], 'C12': ['Multiply']}
+
+def focused_search(pid, rng, stats, rep):
+    """the translator localised a change in an evaluator's `eval` (or a new constant anywhere): dense grids on the constructs
+       that reach the changed arms, restricted to the property's own fragment (tools/focus.py)"""
+    import focus
+    ch = rep.get('evaluator_changes') or {}
+    if not ch or 'error' in ch:
+        return []
+    evs = FOCUS_EVS.get(pid)
+    arms = FOCUS_ARMS.get(pid)
+    sel = {}
+    for k, v in ch.items():
+        if not isinstance(v, dict):
+            continue
+        if k in EVS:
+            if evs is not None and k not in evs:
+                continue
+            a = [x for x in v.get('arms', []) if arms is None or x in arms]
+            oc = v.get('other_changed')
+            if not a and oc and arms is not None:
+                a, oc = list(arms), False
+            if a or oc or v.get('new_literals'):
+                sel[k] = {'arms': a, 'other_changed': oc, 'new_literals': v.get('new_literals', [])}
+        elif evs is None or evs:
+            sel[k] = v
+    if not sel:
+        return []
+    cs = focus.focused_cases(sel, rng, limit=250000)
+    if evs is not None:
+        cs = [c for c in cs if c[0] in evs]
+    if pid in ('C13', 'C14', 'C20', 'C12'):
+        cs = cs[::3]
+    if not cs:
+        return []
+    vlib.log('focused search: %d cases on %s' % (len(cs), json.dumps({k: v.get('arms') or v.get('new_literals') for k, v in sel.items()})[:200]))
+    st = {}
+    cases, outs, model = run_streams(cs, st, budget=10**7)
+    stats['evaluations'] = stats.get('evaluations', 0) + st.get('evaluations', 0)
+    res = std_judge(pid, cases, outs, model)
+    found = []
+    for v in res['violations']:
+        c = v['cases'][0]
+        if c[0] == 'complex' and ('7ff8' in str(v.get('expected')) or '7ff8' in str(v.get('observed')).lower() or 'fff8' in str(v.get('observed')).lower()):
+            continue          # one-NaN limit of the wire format (DESIGN 9.7)
+        v['why'] = 'focused search on the changed evaluator arms: ' + v['why']
+        found.append(v)
+    for prof, impl in outs.items():
+        for c, x in zip(cases, impl):
+            cl = vlib.outcome_class(x)
+            if pid == 'C01' and cl in ('PANIC', 'ABORT', 'TIMEOUT', 'BUDGET'):
+                found.insert(0, {'kind': 'panic', 'cases': [list(c)], 'profile': prof, 'observed': x, 'why': '%s build: %s on %r' % (prof, x, dec_expr(c[3]))})
+            t = vlib.ticks_of(x)
+            n = len(dec_expr(c[3]))
+            if pid == 'C02' and (cl in ('BUDGET', 'TIMEOUT', 'ABORT') or (t is not None and t > BUDGET(n))):
+                found.insert(0, {'kind': 'steps', 'cases': [list(c)], 'observed': x, 'why': '%s: %s steps for %d characters (budget %d)' % (dec_expr(c[3])[:60], t if t is not None else cl, n, BUDGET(n))})
     return found
 
 def rejudge(pid, cases, d, rl, m):
@@ -1059,6 +1169,13 @@ def run_C13(tier, rng, stats):
             for P, tl, tr in [('2', '', ''), ('1', '', '+1'), ('(1)', '2*', ''), ('2', '(', ')')]:
                 if len(tl + P + '^' + r + tr) <= 256:
                     pairs.append((case(ev, 'eval', None, tl + P + sup + tr), case(ev, 'eval', None, tl + P + '^' + r + tr), 'superscript'))
+    # prefix + and redundant brackets up to exactly the 256-character bound
+    for ev in EVS:
+        for o in ['1', '@', '2+3']:
+            for L in (254, 255, 256):
+                pairs.append((case(ev, 'eval', None, o), case(ev, 'eval', None, '+' * (L - len(o)) + o), 'prefix + up to the length bound'))
+                k = (L - len(o)) // 2
+                pairs.append((case(ev, 'eval', None, o), case(ev, 'eval', None, '(' * k + o + ')' * k), 'redundant brackets up to the length bound'))
     # every white-space character, every position of a fixed expression
     for ev in EVS:
         base = {'f64': 'sin(1.5)+2', 'i64': 'gcd(12,18)+2', 'decimal': 'abs(1.5)+2', 'complex': 'sin(1.5)+2i', 'number': 'sin(1.5)+2'}[ev]
@@ -1247,7 +1364,8 @@ def agg_arg(v):
 def py_agg(ev, f, vals):
     """independent reference on the multiset of values (exact rationals); None = not decided here"""
     from fractions import Fraction as Fr
-    xs = [Fr(v) for v in vals]
+    # eval_f64 / eval_number arguments are the doubles the literals denote (0.7 is not 7/10)
+    xs = [Fr(float(v)) if ev == 'f64' or (ev == 'number' and '.' in v) else Fr(v) for v in vals]
     if f == 'min':
         return min(xs)
     if f == 'max':
@@ -1336,6 +1454,21 @@ def run_C11(tier, rng, stats):
                 while len(f) + 2 + sum(len(agg_arg(v)) + 1 for v in base) > 250:
                     base.pop()
                 lists.append(base)
+            # lists of 61..127 short arguments with inexact partial sums (summation order / blocking / pairwise schemes show only
+            # when rounding happens: .1 .3 .7), as many as fit in 256 characters
+            for _ in range(10 if tier == 'quick' else 100):
+                n = 61 + rng.below(67)
+                src2 = {'i64': ['1', '2', '3', '7', '9'], 'decimal': ['.1', '.3', '.7', '1', '2', '.5']}.get(ev, ['.1', '.3', '.7', '1', '2', '.5'])
+                base = [rng.choice(src2[:3] if rng.chance(1, 2) else src2) for _ in range(n)]
+                while len(f) + 2 + sum(len(v) + 1 for v in base) > 256:
+                    base.pop()
+                lists.append(base)
+            for n in (63, 64, 65, 66, 100, 126, 127):
+                for v in (['.1', '.7'] if ev != 'i64' else ['3', '7']):
+                    base = [v] * n
+                    while len(f) + 2 + sum(len(x) + 1 for x in base) > 256:
+                        base.pop()
+                    lists.append(base)
             for L in lists:
                 e = f + '(' + ','.join(agg_arg(v) for v in L) + ')'
                 c = case(ev, 'eval', None, e)
@@ -1344,7 +1477,7 @@ def run_C11(tier, rng, stats):
                 # permutations: all for short lists, a few random ones beyond
                 perms = list(_it.permutations(L)) if len(L) <= (3 if tier == 'quick' else 4) else \
                     [tuple(rng.choice(list(_it.permutations(L[:6]))) ) + tuple(L[6:]) for _ in range(3)]
-                big = any(abs(float(v)) >= 2.0**50 for v in L)
+                big = any(abs(float(v)) >= 2.0**50 for v in L) or any(v in ('.1', '.3', '.7') for v in L)
                 for P in perms[:24]:
                     c2 = case(ev, 'eval', None, f + '(' + ','.join(agg_arg(v) for v in P) + ')')
                     # sums of doubles are order dependent once partial sums are inexact (stated in the theorem); not a violation
@@ -1438,6 +1571,52 @@ def lit_reference(ev, text):
         return 'OK ' + f2w(float(text if not text.startswith('.') else '0' + text)) + ',' + f2w(0.0)
     return None
 
+def midpoint_literals(tier, rng):
+    """decimal texts on and next to the midpoint between two adjacent doubles (where a digit arbitrarily far out decides the
+       rounding): the exact midpoint (a tie), the midpoint cut short (just below), and the midpoint followed by k zeros and
+       a non-zero digit (just above) for k up to the 256-character bound"""
+    from fractions import Fraction as Fr
+    out = []
+    xs = [1.0, 0.1, 0.3, 1.5, 2.0 ** 53, 2.0 ** 53 + 2, 9007199254740992.0 / 8, 1e15, 123456.789, 1e22, 1e23, 5e-324 * 3, 2.2250738585072014e-308, 0.5, 3.0, 1e-5, 4.35, 1e16, 2.0 ** 63, 1.7976931348623155e308]
+    xs += [struct.unpack('>d', struct.pack('>Q', (rng.below(2046) + 1 << 52) | rng.below(1 << 52)))[0] for _ in range(10 if tier == 'quick' else 200)]
+    xs += [float(rng.below(10 ** 6)) / 10 ** rng.below(6) or 1.0 for _ in range(10 if tier == 'quick' else 200)]
+    for x in xs:
+        if x != x or x in (float('inf'), float('-inf')) or x <= 0:
+            continue
+        nx = struct.unpack('>d', struct.pack('>Q', struct.unpack('>Q', struct.pack('>d', x))[0] + 1))[0]
+        if nx == float('inf'):
+            continue
+        mid = (Fr(x) + Fr(nx)) / 2
+        # exact decimal expansion of the midpoint (a dyadic rational: finite)
+        num, den = mid.numerator, mid.denominator
+        k = 0
+        while den % 2 == 0:
+            den //= 2; k += 1
+        if den != 1:
+            continue
+        digits = str(num * 5 ** k)
+        if k:
+            digits = digits.rjust(k + 1, '0')
+            text = digits[:-k] + '.' + digits[-k:]
+        else:
+            text = digits + '.0'
+        text = text.rstrip('0') if '.' in text else text
+        if text.endswith('.'):
+            text += '0'
+        if len(text) > 250:
+            continue
+        out.append(text)
+        for cut in (1, 5, 12):
+            if len(text) - cut > text.index('.') + 1:
+                out.append(text[:-cut])
+        room = 255 - len(text)
+        for z in sorted(set([0, 1, 10, 30, 39, 40, 41, 64, 100, 126, 127, 128, 129, 150, room - 1])):
+            if 0 <= z < room:
+                out.append(text + '0' * z + '1')
+        if text.startswith('0.'):
+            out.append(text[1:])
+    return out
+
 def run_C19(tier, rng, stats):
     lits = set()
     digs = '0179'
@@ -1473,6 +1652,7 @@ def run_C19(tier, rng, stats):
         lits.add(str(rng.below(10)) + '.' + ''.join(str(rng.below(10)) for _ in range(16 + rng.below(25))))
     lits.discard('.')
     lits |= set(longlit_runs())
+    lits |= set(midpoint_literals(tier, rng))
     cs = s_longlits(tier, rng)
     for ev in EVS:
         for l in sorted(lits):
@@ -1767,6 +1947,45 @@ def dec_lit(x):
     s = format(_D(repr(abs(x))), 'f')
     return s if x >= 0 else '(-' + s + ')'
 
+def funcgrid_args(tier):
+    """integer (and half-integer, thorough) arguments across the ranges where the elementary functions overflow, underflow or
+       change regime: exp / sinh / cosh near +-709.78 and +-745.13, exp2 near +-1024 and -1075, gamma near 170.62 and the
+       negative half-line, fixed-point decimal functions near 66.5 (e^x > 2^96), fdlibm regime changes at 22, 28, 2^-28 ..."""
+    dense = list(range(-1100, 1101)) if tier == 'thorough' else \
+        sorted(set(list(range(-1100, 1101, 7)) + list(range(690, 760)) + list(range(-760, -690)) + list(range(1010, 1035)) + list(range(-1085, -1010)) +
+                   list(range(-60, 61)) + list(range(160, 180)) + list(range(-180, -160)) + list(range(60, 100)) + list(range(-100, -60)) + list(range(120, 135))))
+    xs = [float(k) for k in dense]
+    xs += [709.78, 709.79, 710.4, 710.47, 710.48, -709.78, -710.4, -745.13, -745.14, -708.39, -708.4, 1023.9999, -1074.5, 170.62, 170.63, 171.62, -170.5, -171.5, 22.5, 27.9, 28.1, 88.72, 88.73, 11356.5, 11357.5]
+    if tier == 'thorough':
+        xs += [k + 0.5 for k in range(-1100, 1100)]
+    return xs
+
+def s_funcgrid(tier, rng, evs=('f64', 'number', 'complex', 'decimal')):
+    out = []
+    xs = funcgrid_args(tier)
+    for ev in evs:
+        for f in gen.F1[ev]:
+            for x in xs:
+                if ev == 'decimal':
+                    if abs(x) > 130 or x != int(x) and abs(x) > 100:
+                        continue
+                    out.append(case(ev, 'eval', None, f + '(' + dec_lit(x) + ')'))
+                elif ev == 'complex':
+                    out.append(case(ev, 'eval', f2w(x) + ',' + f2w(0.0), f + '(@)'))
+                    if x == int(x) and int(x) % 3 == 0:
+                        out.append(case(ev, 'eval', f2w(x) + ',' + f2w(1.0), f + '(@)'))
+                        out.append(case(ev, 'eval', f2w(1.0) + ',' + f2w(x), f + '(@)'))
+                else:
+                    out.append(case(ev, 'eval', (f2w(x) if ev == 'f64' else 'F' + f2w(x)), f + '(@)'))
+        if gen.HAS_BANG[ev]:
+            for x in xs:
+                if ev == 'decimal':
+                    if abs(x) <= 40:
+                        out.append(case(ev, 'eval', None, '(' + dec_lit(x) + ')!'))
+                elif -200 <= x <= 200:
+                    out.append(case(ev, 'eval', (f2w(x) if ev == 'f64' else 'F' + f2w(x)), '@!'))
+    return out
+
 def run_C10(tier, rng, stats):
     cs = []
     meta = {}
@@ -1837,7 +2056,7 @@ def run_C10(tier, rng, stats):
         add('decimal', f + '(@)', '-0/2', ('f1', f, (-0.0,)))
     add('decimal', '@!', '-0/0', ('fact', '!', (-0.0,)))
     add('decimal', '@!', '-0/3', ('fact', '!', (-0.0,)))
-    pool_cases = [c for c in s_oppool(tier, rng) + s_pairs2(tier, rng, evs=['f64', 'i64', 'decimal', 'number']) if any(ch.isalpha() or ch in '!°' for ch in dec_expr(c[3]).replace('@', ''))]
+    pool_cases = [c for c in s_funcgrid(tier, rng, evs=('f64', 'number', 'decimal')) + s_oppool(tier, rng) + s_pairs2(tier, rng, evs=['f64', 'i64', 'decimal', 'number']) if any(ch.isalpha() or ch in '!°' for ch in dec_expr(c[3]).replace('@', ''))]
     for c in pool_cases:
         if c not in meta:
             cs.append(c); meta[c] = ('model-only', '', ())
@@ -2117,7 +2336,7 @@ def run_C08(tier, rng, stats):
     # compared with the model only (the component formulas propagate inf * 0 = NaN and the signs of zeros)
     # (num_complex's functions, / and ^ branch on the sign bit of a NaN, which neither the wire format nor the one-NaN
     # model carries: NaN placeholders are used with the field operations only)
-    for c in s_oppool(tier, rng, evs=['complex']):
+    for c in s_oppool(tier, rng, evs=['complex']) + s_funcgrid(tier, rng, evs=('complex',)):
         e = dec_expr(c[3]).replace('@', '')
         if '7ff8' in c[2] and (any(ch.isalpha() for ch in e.replace('i', '')) or '/' in e or '^' in e):
             continue
@@ -2252,6 +2471,24 @@ def run_C15(tier, rng, stats):
             for u in (t, x, y):
                 if u is not None:
                     sub_cases[u] = case('f64', 'eval', None, u)
+    # long argument lists with inexact partial sums: the two evaluators must use the same summation order
+    for f in FVs + ['median']:
+        for _ in range(6 if tier == 'quick' else 60):
+            k = 2 + rng.below(126)
+            args = [rng.choice(['.1', '.3', '.7', '1', '2', '.5', '2.5']) for _ in range(k)]
+            while len(f) + 2 + sum(len(v) + 1 for v in args) > 256:
+                args.pop()
+            e = f + '(' + ','.join(args) + ')'
+            floats.append((case('f64', 'eval', None, e), case('number', 'eval', None, e), [(e, 'fv', None, None)]))
+            sub_cases[e] = case('f64', 'eval', None, e)
+        for k in (63, 64, 65, 66, 100, 126, 127):
+            for v in ('.1', '.7'):
+                args = [v] * k
+                while len(f) + 2 + sum(len(x) + 1 for x in args) > 256:
+                    args.pop()
+                e = f + '(' + ','.join(args) + ')'
+                floats.append((case('f64', 'eval', None, e), case('number', 'eval', None, e), [(e, 'fv', None, None)]))
+                sub_cases[e] = case('f64', 'eval', None, e)
     # (3) decimal vs f64 on positive well-conditioned expressions over + * / sqrt exp ln pow
     gd = ExprGen(rng, 'decimal', lits=['0.5', '1', '1.5', '2', '2.5', '3', '4', '10', '0.25'], allow_ans=False, allow_juxt=False, allow_sup=False, allow_bang=False,
                  f1=['sqrt', 'exp', 'ln'], f2=['pow'], fv=[], ops={'+': 4, '*': 5, '/': 5}, allow_consts=False, allow_post=False)
